@@ -55,15 +55,26 @@ func isLineNumberExpr(info *types.Info, e ast.Expr, body ast.Node) bool {
 	return false
 }
 
-func parserMessagesRule(r *Run, rule string) {
-	w := r.W
+// errRecorder describes a parser method that records an error message built
+// from its own parameters: p.errors = append(p.errors, fmt.Sprintf(format, args...)).
+type errRecorder struct {
+	f        *FuncInfo
+	format   int // parameter index of the format
+	variadic int // parameter index of the operands (variadic)
+}
+
+func (w *World) errRecorders() map[*types.Func]*errRecorder {
+	out := map[*types.Func]*errRecorder{}
 	pm := w.parserModel()
 	if pm.errorsF == nil {
-		r.Lost(rule, "error list of the parser")
-		return
+		return out
 	}
 	info := pm.info
 	for _, f := range w.Funcs("parser") {
+		sig := f.Obj.Type().(*types.Signature)
+		if !sig.Variadic() || sig.Params().Len() < 2 {
+			continue
+		}
 		inspectBody(f.Decl.Body, false, func(n ast.Node) bool {
 			as, ok := n.(*ast.AssignStmt)
 			if !ok || len(as.Lhs) != 1 || len(as.Rhs) != 1 {
@@ -73,50 +84,188 @@ func parserMessagesRule(r *Run, rule string) {
 				return true
 			}
 			c, ok := unparen(as.Rhs[0]).(*ast.CallExpr)
-			if !ok || builtinName(info, c) != "append" || len(c.Args) < 2 {
-				if cl, isLit := unparen(as.Rhs[0]).(*ast.CompositeLit); isLit && len(cl.Elts) == 0 {
-					return true // initialisation
-				}
-				r.Bad(rule, f.Name(), "write to the error list "+short(w.Fset, as), w.Pos(as.Pos()), "the error list must only be appended to")
+			if !ok || builtinName(info, c) != "append" || len(c.Args) != 2 {
 				return true
 			}
-			for _, a := range c.Args[1:] {
-				con := "message " + short(w.Fset, a)
-				e := a
-				// a local: msg := fmt.Sprintf(...)
-				if o := objOf(info, a); o != nil {
-					var def ast.Expr
-					nd := 0
-					inspectBody(f.Decl.Body, false, func(m ast.Node) bool {
-						if s, ok := m.(*ast.AssignStmt); ok {
-							for i, l := range s.Lhs {
-								if objOf(info, l) == o && i < len(s.Rhs) {
-									def = s.Rhs[i]
-									nd++
-								}
-							}
+			sp, ok := unparen(c.Args[1]).(*ast.CallExpr)
+			if !ok || !funcIs(calleeOf(info, sp), "fmt", "Sprintf") || len(sp.Args) != 2 || !sp.Ellipsis.IsValid() {
+				return true
+			}
+			fi, vi := -1, -1
+			for i := 0; i < sig.Params().Len(); i++ {
+				if objOf(info, sp.Args[0]) == sig.Params().At(i) {
+					fi = i
+				}
+				if objOf(info, sp.Args[1]) == sig.Params().At(i) {
+					vi = i
+				}
+			}
+			if fi >= 0 && vi == sig.Params().Len()-1 {
+				out[f.Obj] = &errRecorder{f: f, format: fi, variadic: vi}
+			}
+			return true
+		})
+	}
+	return out
+}
+
+// isCurrentLine: e is <parser>.curToken.LineNumber -- the line of the token the
+// parser is on -- directly, through a local assigned once from it, or through
+// a parameter that every call site feeds with it.
+func (w *World) isCurrentLine(f *FuncInfo, e ast.Expr, depth int) (bool, string) {
+	info := f.Pkg.TypesInfo
+	cur, _, _ := w.parserTokenFields()
+	e = unparen(e)
+	if x, fld := fieldOf(info, e); fld != nil && fld.Name() == "LineNumber" {
+		if _, tf := fieldOf(info, x); tf != nil && tf == cur {
+			return true, ""
+		}
+		return false, "the line is taken from " + types.ExprString(x) + ", not from the token the parser is on: the parser reports the line of its current token (the look-ahead token may already be on a later line)"
+	}
+	o := objOf(info, e)
+	if o == nil || depth > 3 {
+		return false, "the first operand is not a token's LineNumber"
+	}
+	sig := f.Obj.Type().(*types.Signature)
+	for i := 0; i < sig.Params().Len(); i++ {
+		if o != sig.Params().At(i) {
+			continue
+		}
+		n := 0
+		for _, g := range w.Funcs("parser") {
+			for _, c := range callsIn(g.Decl.Body, false) {
+				if calleeOf(g.Pkg.TypesInfo, c) != f.Obj || i >= len(c.Args) {
+					continue
+				}
+				n++
+				if ok, why := w.isCurrentLine(g, c.Args[i], depth+1); !ok {
+					return false, why
+				}
+			}
+		}
+		if n == 0 {
+			return false, "the line is a parameter that no call site supplies"
+		}
+		return true, ""
+	}
+	var def ast.Expr
+	nd := 0
+	inspectBody(f.Decl.Body, false, func(m ast.Node) bool {
+		if s, ok := m.(*ast.AssignStmt); ok {
+			for i, l := range s.Lhs {
+				if objOf(info, l) == o && i < len(s.Rhs) {
+					def = s.Rhs[i]
+					nd++
+				}
+			}
+		}
+		return true
+	})
+	if nd == 1 && def != nil {
+		return w.isCurrentLine(f, def, depth+1)
+	}
+	return false, "the first operand is not a token's LineNumber"
+}
+
+func parserMessagesRule(r *Run, rule string) {
+	w := r.W
+	pm := w.parserModel()
+	if pm.errorsF == nil {
+		r.Lost(rule, "error list of the parser")
+		return
+	}
+	info := pm.info
+	recs := w.errRecorders()
+	// one message: the format expression and its first operand
+	checkMsg := func(f *FuncInfo, at ast.Node, format ast.Expr, first ast.Expr, con string) {
+		fs, isConst := constString(info, format)
+		switch {
+		case !isConst:
+			r.Bad(rule, f.Name(), con, w.Pos(at.Pos()), "a syntax error message must start with 'line N:' taken from a token's LineNumber: format is not constant")
+		case !strings.HasPrefix(fs, "line %d:"):
+			r.Bad(rule, f.Name(), con, w.Pos(at.Pos()), fmt.Sprintf("a syntax error message must start with 'line N:' taken from a token's LineNumber: format %q does not start with \"line %%d:\"", fs))
+		case first == nil:
+			r.Bad(rule, f.Name(), con, w.Pos(at.Pos()), "a syntax error message must start with 'line N:' taken from a token's LineNumber: no operand for the line")
+		default:
+			if ok, why := w.isCurrentLine(f, first, 0); ok {
+				r.Ok(rule, f.Name(), con, w.Pos(at.Pos()), "\"line %d: ...\" fed from the current token's LineNumber")
+			} else {
+				r.Bad(rule, f.Name(), con, w.Pos(at.Pos()), "a syntax error message must start with 'line N:' taken from a token's LineNumber: "+why)
+			}
+		}
+	}
+	sprintfParts := func(f *FuncInfo, e ast.Expr) (format, first ast.Expr, ok bool) {
+		e = unparen(e)
+		if o := objOf(info, e); o != nil {
+			var def ast.Expr
+			nd := 0
+			inspectBody(f.Decl.Body, false, func(m ast.Node) bool {
+				if s, ok := m.(*ast.AssignStmt); ok {
+					for i, l := range s.Lhs {
+						if objOf(info, l) == o && i < len(s.Rhs) {
+							def = s.Rhs[i]
+							nd++
 						}
-						return true
-					})
-					if nd == 1 {
-						e = def
 					}
 				}
-				ok, why := linePrefixedSprintf(info, e)
-				if !ok {
-					// ln := tok.LineNumber ... Sprintf("line %d: ...", ln, ...)
-					if c2, isCall := unparen(e).(*ast.CallExpr); isCall && funcIs(calleeOf(info, c2), "fmt", "Sprintf") && len(c2.Args) >= 2 {
-						if fs, isC := constString(info, c2.Args[0]); isC && strings.HasPrefix(fs, "line %d:") {
-							if lo := objOf(info, c2.Args[1]); lo != nil && localFromLineNumber(info, f, lo) {
-								ok = true
-							}
-						}
-					}
+				return true
+			})
+			if nd == 1 {
+				e = unparen(def)
+			}
+		}
+		c, isCall := e.(*ast.CallExpr)
+		if !isCall || !funcIs(calleeOf(info, c), "fmt", "Sprintf") || len(c.Args) < 1 {
+			return nil, nil, false
+		}
+		if len(c.Args) >= 2 && !c.Ellipsis.IsValid() {
+			return c.Args[0], c.Args[1], true
+		}
+		return c.Args[0], nil, true
+	}
+	for _, f := range w.Funcs("parser") {
+		_, isRecorder := recs[f.Obj]
+		inspectBody(f.Decl.Body, false, func(n ast.Node) bool {
+			switch x := n.(type) {
+			case *ast.CallExpr:
+				rec := recs[calleeOf(info, x)]
+				if rec == nil {
+					return true
 				}
-				if ok {
-					r.Ok(rule, f.Name(), con, w.Pos(as.Pos()), "\"line %d: ...\" fed from a token's LineNumber")
-				} else {
-					r.Bad(rule, f.Name(), con, w.Pos(as.Pos()), "a syntax error message must start with 'line N:' taken from a token's LineNumber: "+why)
+				con := "message " + short(w.Fset, x)
+				var first ast.Expr
+				if len(x.Args) > rec.variadic && !x.Ellipsis.IsValid() {
+					first = x.Args[rec.variadic]
+				}
+				if rec.format < len(x.Args) {
+					checkMsg(f, x, x.Args[rec.format], first, con)
+				}
+			case *ast.AssignStmt:
+				if len(x.Lhs) != 1 || len(x.Rhs) != 1 {
+					return true
+				}
+				if _, fld := fieldOf(info, x.Lhs[0]); fld != pm.errorsF {
+					return true
+				}
+				c, ok := unparen(x.Rhs[0]).(*ast.CallExpr)
+				if !ok || builtinName(info, c) != "append" || len(c.Args) < 2 {
+					if cl, isLit := unparen(x.Rhs[0]).(*ast.CompositeLit); isLit && len(cl.Elts) == 0 {
+						return true // initialisation
+					}
+					r.Bad(rule, f.Name(), "write to the error list "+short(w.Fset, x), w.Pos(x.Pos()), "the error list must only be appended to")
+					return true
+				}
+				if isRecorder {
+					return true // the recorder's own append: its messages are checked at its call sites
+				}
+				for _, a := range c.Args[1:] {
+					con := "message " + short(w.Fset, a)
+					format, first, ok := sprintfParts(f, a)
+					if !ok {
+						r.Bad(rule, f.Name(), con, w.Pos(x.Pos()), "a syntax error message must start with 'line N:' taken from a token's LineNumber: not a fmt.Sprintf with operands")
+						continue
+					}
+					checkMsg(f, x, format, first, con)
 				}
 			}
 			return true
